@@ -446,6 +446,13 @@ def fields(mon, spec):
         else:
             for n in idx:
                 judge('%s.%s(%d)' % (clsname, g, n), inst, lambda: getattr(inst, g)(n), lambda v: getattr(inst, s)(n, v), pos(n))
+    # a field whose width depends on the configuration: RGNR.REGION holds ceil(log2(number of MPU regions)) bits
+    # (region counts that are powers of two are left out: the repository gives them one spare bit, which is harmless)
+    from armulator.armv6.all_registers.rgnr import RGNR
+    for nreg in (3, 5, 6, 10, 12, 20, 24, 40):
+        inst = RGNR(nreg)
+        width = max(1, (nreg - 1).bit_length())
+        judge('RGNR(%d regions).region' % nreg, inst, inst.get_region, inst.set_region, list(range(width - 1, -1, -1)))
     # every property the repository defines must be in the table (otherwise the run says so)
     import pkgutil
     import armulator.armv6.all_registers as AR
@@ -458,6 +465,9 @@ def fields(mon, spec):
                 for pname, p in vars(cls).items():
                     if isinstance(p, property) and (cname, pname) not in known and pname != 'apsr':
                         missing.append('%s.%s' % (cname, pname))
+                    if pname.startswith('get_') and callable(p) and not any(c == cname and g == pname for _, c, g, _, _, _ in INDEXED) \
+                            and (cname, pname) != ('RGNR', 'get_region'):
+                        missing.append('%s.%s()' % (cname, pname))
     mon.bump('repo_fields_not_in_table', len(missing))
     if missing:
         mon.res['samples'].append(dict(fields_not_judged=missing))
